@@ -28,10 +28,15 @@ def run(tier, replay):
         trace = S.serve(worlds, cases, sc, obs="full", triple=True, stats=False)
         verdict = vlib.Verdict("C09")
         tv = S.judge("C09", "Trace_Static_c09", trace, verdict, signature, heap="12g")
+        wcases = sc.path("wire_cases.ndjson")
+        S.sample_cases(cases, wcases, every=1 if tier == "thorough" else 3)
+        trace3 = S.serve(worlds, wcases, sc, obs="full", triple=True, stats=False, tag="w", wire=True)
+        tv3 = S.judge("C09", "Trace_Static_c09", trace3, verdict, signature, heap="12g")
         n1 = S.count_events(trace)
+        n3 = S.count_events(trace3)
         ev["coverage"] = {
             "states": mc.distinct + gen.distinct, "transitions": mc.generated + gen.generated,
-            "traces_validated_against_impl": n1["Serve"], "triples": ncases,
+            "traces_validated_against_impl": n1["Serve"] + n3["Serve"], "wire_requests": n3["Serve"], "triples": ncases,
             "samples": S.sample_events(trace, 3),
             "rule": "Gen_Static(c09): every servable path of two menu worlds (files, directory indexes +/- slash, .html fallbacks, through links, built-in "
                     "assets) x {prod, legacy} x {no Range, bytes=0-0} x {no Origin, Origin} x {plain, preflight headers}; each case is run as GET, HEAD, OPTIONS "
